@@ -147,3 +147,72 @@ func TestC05_Schedules(t *testing.T) {
 		},
 		Check: c05Check})
 }
+
+// TestC05_ImplicitDescriptor: the resolver supplies its own descriptor.proto, which every file depends on implicitly;
+// when that file imports workspace files the dependency graph has a cycle that only exists through the implicit edge.
+func TestC05_ImplicitDescriptor(t *testing.T) {
+	ev.Run(t, ev.Spec[c05Case]{ID: "C05", Name: "ImplicitDescriptor", Quick: 60, Thorough: 2500,
+		Rule: "generated workspaces of 1-4 files plus a resolver-supplied google/protobuf/descriptor.proto that imports 0-2 of them (with imports the graph is cyclic through the implicit dependency of every file on descriptor.proto); descriptor.proto and the workspace files are all requested; same configurations and oracle as Schedules (verdict and bytes equal to the reference run for every parallelism, request order and resolver perturbation); non-trivial as Schedules",
+		Gen: func(t *rapid.T) c05Case {
+			ws := gen.GenWorkspace(t, gen.Config{MinFiles: 1, MaxFiles: 4, ImportPct: 50})
+			c := c05Case{}
+			c.Files, c.Names = ws.PrintAll(), ws.Names()
+			d := customDescriptor(false)
+			nimp := gen.Pick(t, []int{0, 1, 1, 2}, "nimports")
+			var imps string
+			for _, n := range rapid.Permutation(ws.Names()).Draw(t, "imported") {
+				if nimp == 0 {
+					break
+				}
+				imps += fmt.Sprintf("import %q;\n", n)
+				nimp--
+			}
+			if imps != "" {
+				c.Mutation = "cycle-through-implicit-descriptor-dependency"
+				i := strings.Index(d, "package google.protobuf;")
+				if i < 0 {
+					panic("custom descriptor.proto has no package statement")
+				}
+				i += len("package google.protobuf;")
+				d = d[:i] + "\n" + imps + d[i:]
+			}
+			c.Files["google/protobuf/descriptor.proto"] = d
+			c.Names = append(c.Names, "google/protobuf/descriptor.proto")
+			c.Runs = genRuns(t, c.Names, 4)
+			return c
+		},
+		Check: c05Check})
+}
+
+// TestC05_CrossFileCollision: unrelated files of one package that define the same name; whichever is linked second
+// must report the collision, whatever the schedule.
+func TestC05_CrossFileCollision(t *testing.T) {
+	ev.Run(t, ev.Spec[c05Case]{ID: "C05", Name: "CrossFileCollision", Quick: 24, Thorough: 600,
+		Rule: "2-4 files of one package that do not import each other, each with 200-1500 messages (so that linking them overlaps in time) and, in two of them, one message of the same name; compiled at parallelism 2-16 in generated request orders, 4 configurations x 2 repetitions; oracle as Schedules: the reference run (parallelism 1) fails and so must every other run; non-trivial = always (parallelism >= 2 by construction)",
+		Gen: func(t *rapid.T) c05Case {
+			k := 2 + gen.Uniform(t, 3, "nfiles")
+			n := gen.Pick(t, []int{200, 600, 1000, 1500}, "nmsgs")
+			a := gen.Uniform(t, k, "dupA")
+			b := (a + 1 + gen.Uniform(t, k-1, "dupB")) % k
+			c := c05Case{Files: map[string]string{}, Mutation: "cross-file-duplicate-symbol"}
+			for i := 0; i < k; i++ {
+				var sb strings.Builder
+				sb.WriteString("syntax = \"proto3\";\npackage p.q;\n")
+				pos := gen.Pick(t, []int{0, n / 2, n - 1}, "duppos")
+				for j := 0; j < n; j++ {
+					if j == pos && (i == a || i == b) {
+						sb.WriteString("message Dup { int32 x = 1; }\n")
+					}
+					fmt.Fprintf(&sb, "message M%d_%d { int32 x = 1; }\n", i, j)
+				}
+				name := fmt.Sprintf("c%d.proto", i)
+				c.Files[name] = sb.String()
+				c.Names = append(c.Names, name)
+			}
+			for i := 0; i < 4; i++ {
+				c.Runs = append(c.Runs, c05Run{Par: gen.Pick(t, []int{2, 2, 3, 4, 8, 16}, "par"), Order: rapid.Permutation(c.Names).Draw(t, "order")})
+			}
+			return c
+		},
+		Check: c05Check})
+}
